@@ -5,6 +5,7 @@ use slab::Slab;
 
 use super::{BridgeError, Request};
 use crate::bridge::request_serde::ResolveSerialized;
+use crate::core::ResolveError;
 use crate::Effect;
 
 #[derive(Debug, Clone, Copy, PartialEq, Eq, Serialize, Deserialize)]
@@ -68,7 +69,15 @@ impl ResolveRegistry {
 
         let resolved = entry.resolve(body);
 
-        if let ResolveSerialized::Never = entry {
+        // The entry can be dropped once it can no longer be resolved: it was a one-off
+        // (now used up), or a stream whose receiving end is gone, which the shell has
+        // just been told with `FinishedMany`.
+        let finished = matches!(
+            resolved,
+            Err(BridgeError::ProcessResponse(ResolveError::FinishedMany))
+        );
+
+        if finished || matches!(entry, ResolveSerialized::Never) {
             registry_lock.remove(id.0 as usize);
         }
 
